@@ -29,11 +29,15 @@ out.append("Every change below was applied to a scratch copy of the repository o
            "defects that only a fault-injecting or multi-fiber configuration can expose. The table is generated from "
            "`sensitivity_results.json` by `tools/sens_report.py`.\n")
 out.append("### 11.1 Independently written changes (`seeded/<id>/`)\n")
-out.append("Written by sub-agents that were given only the property text and a scratch worktree; each was confirmed "
-           "before being kept (patch applies to HEAD, 433/433 tests pass with it, its demonstration fails with it and "
-           "passes without it: `seeded/<id>/confirm.log`).\n")
-out.append("| change | property | what it needs to manifest | result | violation classes | first run |")
-out.append("|---|---|---|---|---|---|")
+out.append("Written by sub-agents that were given only the property text and a scratch worktree (rounds 2-4 also a list of "
+           "ideas already used, so that they would not repeat them); each was confirmed before being kept (patch applies to "
+           "HEAD, 433/433 tests pass with it, its demonstration fails with it and passes without it: "
+           "`seeded/<id>/confirm.log`). Four changes are marked *adversarial*: their authors were additionally told in prose "
+           "what the check observes (no file from `/verif`) and asked for a change likely to slip past it - all four did "
+           "slip past the check as it stood and were caught only after the workload had been extended (larger counts, tied "
+           "values and wide nodes, a by-value movable argument, rare characters); the history is in the result column.\n")
+out.append("| change | property | source | what it needs to manifest | result | violation classes | first run |")
+out.append("|---|---|---|---|---|---|---|")
 for k in sorted(data):
     d = data[k]
     if d.get("kind") != "seeded":
@@ -44,7 +48,8 @@ for k in sorted(data):
         meta = json.load(open(mp))
     needs = meta.get("needs_to_manifest", "")
     note = (" (" + d["note"] + ")") if d.get("note") else ""
-    out.append("| `%s` | %s | %s | %s%s | %s | %s |" % (k, d["prop"], needs, verdict(d), note, ", ".join(d["classes"]), d["first_run"]))
+    src = "adversarial" if "ADVERSARIAL" in meta.get("source", "") else "independent"
+    out.append("| `%s` | %s | %s | %s | %s%s | %s | %s |" % (k, d["prop"], src, needs, verdict(d), note, ", ".join(d["classes"]), d["first_run"]))
 out.append("")
 out.append("### 11.2 Planted defects (`tools/mutants.py`)\n")
 out.append("| id | property | file | F | expected | result | violation classes | first run |")
